@@ -40,7 +40,8 @@ Proof.
   all: try (repeat break_match; cbn; intros; try discriminate; auto; fail).
   - destruct (resolve_conds s cp); [|cbn; auto]. destruct n; [cbn; auto|].
     apply finish_upload_frame.
-  - destruct (resolve_conds s cp); [|cbn; auto]. apply finish_upload_frame.
+  - destruct (resolve_conds s cp); [|cbn; auto]. destruct (um_name m); [cbn; auto|].
+    apply finish_upload_frame.
   - (* resumable put *)
     destruct (alookup id (s_uploads s)) as [u|]; [|cbn; auto].
     destruct crange as [cr|]; [|cbn; auto].
@@ -58,6 +59,7 @@ Proof.
   - (* compose *)
     destruct (resolve_conds s cp); [|cbn; auto]. destruct bad; [cbn; auto|].
     destruct (split _ _) as [|d0 [|d1 [|d2 ds]]]; cbn; auto.
+    destruct d0 as [|d00 d0']; [cbn; auto|]. set (d0 := d00 :: d0').
     destruct (_ >? _); [cbn; auto|].
     destruct (fold_left _ srcs _) as [[code data]|]; [|cbn; auto].
     destruct code; cbn; auto.
@@ -67,6 +69,7 @@ Proof.
     destruct (contains _ _); [cbn; auto|].
     destruct (split _ _) as [|f1 [|rest [|x xs]]]; cbn; auto.
     destruct (split2 _ _) as [|b2' [|f2 [|y ys]]]; cbn; auto.
+    destruct f2 as [|f20 f2']; [cbn; auto|]. set (f2 := f20 :: f2').
     destruct (find_obj s b1 f1) as [o|]; cbn; auto.
     rewrite find_obj_store_add_same. cbn. intros; discriminate.
 Qed.
@@ -96,7 +99,7 @@ Proof.
   unfold resp_meta. rewrite find_obj_store_add_same. cbn. auto.
 Qed.
 
-Lemma gate_upload_multipart s b m data cp : (um_md5 m = 0 \/ um_md5 m = 1)%N ->
+Lemma gate_upload_multipart s b m data cp : (um_md5 m = 0 \/ um_md5 m = 1)%N -> um_name m <> [] ->
   let '(s', rsp) := handle s (RUploadMultipart b m data cp) in
   match gate s cp (find_obj s b (um_name m)) with
   | Some VPass => r_status rsp = 200
@@ -104,7 +107,8 @@ Lemma gate_upload_multipart s b m data cp : (um_md5 m = 0 \/ um_md5 m = 1)%N ->
   | g => r_status rsp = status_of_gate g /\ s' = s
   end.
 Proof.
-  intros Hmd. cbn [handle]. unfold gate. destruct (resolve_conds s cp) as [c|]; [|cbn; auto].
+  intros Hmd Hn. cbn [handle]. unfold gate. destruct (resolve_conds s cp) as [c|]; [|cbn; auto].
+  destruct (um_name m) as [|n0 nm] eqn:En; [congruence|]. rewrite <- En.
   unfold finish_upload. destruct Hmd as [-> | ->];
     (destruct (validate_conds _ c); cbn; auto; unfold resp_meta; rewrite find_obj_store_add_same; cbn; auto).
 Qed.
